@@ -132,7 +132,11 @@ def Greedy.addAll (shortCircuit : Bool) (c : Cfg α) (best : Option α) (xs : Li
       let r := Greedy.add c acc.1 x
       (r.1, acc.2 || r.2)) (best, false)
 
-/-- what `/repo/rosomaxa/src/population/greedy.rs::add_all` does today (checked by the correspondence run) -/
+/-- what `/repo/rosomaxa/src/population/greedy.rs::add_all` does today (checked by the correspondence run:
+    `corpus/C08/greedy_batch_skips_better.jsonl` and every generated Greedy case with a better element after the first
+    improving one distinguish the two folds). THE ONLY SWITCH: once `add_all` hands every element to `add`
+    (e.g. `self.add(individual) || acc`), set this to `false`; model, driver and oracle then demand the full property
+    for Greedy as well (theorems exist for both values, none depends on this constant). -/
 def Greedy.repoShortCircuits : Bool := false
 
 /-- `std::iter::repeat_n(best_known, selection_size)` -/
